@@ -264,7 +264,8 @@ fn pmsgs(prop: &str) -> BoxedStrategy<Vec<PMsg>> {
             v
         })
         .boxed(),
-        "C15" => proptest::collection::vec(prop_oneof![6 => Just(PMsg::Record), 4 => (actor(), 0u32..40).prop_map(|(to, amt)| PMsg::SpendDeposit { to, amt }), 1 => Just(PMsg::RePropose)], 0..3).boxed(),
+        // (ReClose: the multisig itself closes a proposal while executing another one - a Close like any other)
+        "C15" => proptest::collection::vec(prop_oneof![12 => Just(PMsg::Record), 8 => (actor(), 0u32..40).prop_map(|(to, amt)| PMsg::SpendDeposit { to, amt }), 2 => Just(PMsg::RePropose), 3 => pref().prop_map(PMsg::ReClose)], 0..3).boxed(),
         _ => Just(vec![]).boxed(),
     }
 }
@@ -328,7 +329,9 @@ fn voters(prop: &str, fixed: bool) -> BoxedStrategy<Vec<(u8, u64)>> {
 fn flavour(prop: &str) -> BoxedStrategy<Flavour> {
     let exec = |p: &str| -> BoxedStrategy<ExecSpec> {
         if p == "C05" {
-            prop_oneof![3 => Just(ExecSpec::Anyone), 2 => Just(ExecSpec::Member), 2 => actor().prop_map(ExecSpec::Only)].boxed()
+            // (indices 100 and 101: a configured executor address nobody can ever send from - the upper-case spelling
+            // of an account, a plain name: it is stored as given and authorises nobody)
+            prop_oneof![12 => Just(ExecSpec::Anyone), 8 => Just(ExecSpec::Member), 7 => actor().prop_map(ExecSpec::Only), 1 => (100u8..102).prop_map(ExecSpec::Only)].boxed()
         } else {
             prop_oneof![8 => Just(ExecSpec::Anyone), 1 => Just(ExecSpec::Member), 1 => actor().prop_map(ExecSpec::Only)].boxed()
         }
@@ -528,6 +531,15 @@ struct World {
     relay: Option<Addr>,
 }
 
+/// the address an `ExecSpec::Only` index stands for (100, 101: strings that are nobody's address)
+fn only_addr(actors: &[Addr], i: u8) -> Addr {
+    match i {
+        100 => Addr::unchecked(actors[0].to_string().to_uppercase()),
+        101 => Addr::unchecked("executor"),
+        _ => actors[i as usize % N_ACTORS].clone(),
+    }
+}
+
 fn v(prop: &str, sig: &str, msg: String) -> Violation {
     Violation::new(prop, &format!("{prop}/{sig}"), msg)
 }
@@ -564,6 +576,8 @@ struct PModel {
     retried_ok: bool,
     /// an Execute call targeting this proposal has returned success (whatever the status says afterwards)
     execute_succeeded: bool,
+    /// per message: the proposal id a re-entrant message (ReExecute / ReVote / ReClose) names
+    ref_ids: Vec<Option<u64>>,
 }
 
 impl World {
@@ -664,7 +678,7 @@ impl World {
         match self.executor {
             ExecSpec::Anyone => true,
             ExecSpec::Member => members.contains_key(who.as_str()),
-            ExecSpec::Only(i) => self.actors[i as usize % N_ACTORS] == *who,
+            ExecSpec::Only(i) => only_addr(&self.actors, i) == *who,
         }
     }
 }
@@ -799,7 +813,7 @@ pub fn run_mcase(prop: &str, case: &MCase, ctx: &mut CaseCtx) -> Result<(), Viol
             executor: match executor {
                 ExecSpec::Anyone => None,
                 ExecSpec::Member => Some(cw3_flex_multisig::state::Executor::Member),
-                ExecSpec::Only(i) => Some(cw3_flex_multisig::state::Executor::Only(actors[i as usize % N_ACTORS].clone())),
+                ExecSpec::Only(i) => Some(cw3_flex_multisig::state::Executor::Only(only_addr(&actors, i))),
             },
             proposal_deposit: deposit.map(|d| UncheckedDepositInfo {
                 amount: Uint128::new(d.amount),
@@ -846,6 +860,7 @@ pub fn run_mcase(prop: &str, case: &MCase, ctx: &mut CaseCtx) -> Result<(), Viol
     let mut models: Vec<PModel> = vec![];
     let mut fault_on = false;
     let mut alive_max = 0usize;
+    let mut last_refs: Vec<Option<u64>> = vec![];
 
     // C06 fixed: total == sum of listed voters (F4)
     if prop == "C06" && fixed {
@@ -1072,6 +1087,7 @@ pub fn run_mcase(prop: &str, case: &MCase, ctx: &mut CaseCtx) -> Result<(), Viol
                         }
                     }
                 };
+                last_refs = msgs.iter().map(|m| match m { PMsg::ReExecute(r) | PMsg::ReVote(r) | PMsg::ReClose(r) => Some(resolve_ref(r)), _ => None }).collect();
                 let cmsgs: Vec<CosmosMsg> = msgs
                     .iter()
                     .enumerate()
@@ -1236,6 +1252,7 @@ pub fn run_mcase(prop: &str, case: &MCase, ctx: &mut CaseCtx) -> Result<(), Viol
                     failed_execute_seen: false,
                     retried_ok: false,
                     execute_succeeded: false,
+                    ref_ids: last_refs.clone(),
                 });
             }
         }
@@ -1851,6 +1868,28 @@ fn oracle_c15(w: &World, pre: &Obs, post: &Obs, done: &Done, models: &mut [PMode
                     ctx.flag("refund_by_execute");
                 }
             }
+            // a Close the multisig sent itself while executing is a Close like any other: the execution went
+            // through, so every such Close succeeded - it can only have closed an expired proposal that neither
+            // passed nor was closed or executed before, and it refunds like a Close by anybody else
+            let nested: Vec<(u64, u64)> = newly.iter().flat_map(|i| models[*i].msgs.iter().zip(models[*i].ref_ids.iter()).filter_map(|(pm, r)| if let (PMsg::ReClose(_), Some(id)) = (pm, r) { Some((models[*i].id, *id)) } else { None }).collect::<Vec<_>>()).collect();
+            for (outer, id) in nested {
+                ctx.count("nested_close_went_through");
+                let Some(j) = models.iter().position(|m| m.id == id) else {
+                    return Err(v(prop, "nested-close-admitted-wrongly", format!("{at}: proposal {outer} closes proposal {id}, which does not exist, yet its execution succeeded")));
+                };
+                let a = &mut models[j];
+                let pre_status = pre.props.iter().find(|p| p.id == id).map(|p| p.status);
+                if a.closed || a.executed || newly.contains(&j) || matches!(pre_status, Some(Status::Passed) | Some(Status::Executed) | Some(Status::Open)) {
+                    return Err(v(prop, "nested-close-admitted-wrongly", format!("{at}: while executing proposal {outer} the multisig closed proposal {id} (status before the call {:?}, closed before: {}, executed before: {}); a Close succeeds only on an expired proposal that did not pass and was not closed before", pre_status, a.closed, a.executed)));
+                }
+                a.closed = true;
+                if d.refund_failed && a.deposit_held && !a.deposit_returned {
+                    expect[a.proposer] += d.amount as i128;
+                    expect[ms] -= d.amount as i128;
+                    a.deposit_returned = true;
+                    ctx.flag("refund_by_close");
+                }
+            }
         }
         Done::FundDep { amt } => {
             expect[ms] += *amt as i128;
@@ -1956,7 +1995,7 @@ pub fn decode_mcase(prop: &str, u: &mut arbitrary::Unstructured) -> MCase {
     } else {
         let executor = match arb_below(u, if prop == "C05" { 3 } else { 10 }) {
             1 => ExecSpec::Member,
-            2 => ExecSpec::Only(d_actor(u)),
+            2 => ExecSpec::Only(if prop == "C05" && arb_bool(u, 1, 8) { 100 + arb_below(u, 2) as u8 } else { d_actor(u) }),
             _ => ExecSpec::Anyone,
         };
         let deposit = if prop == "C15" || arb_bool(u, 1, 4) { Some(DepSpec { cw20: arb_bool(u, 1, 2), amount: 1 + arb_below(u, 30) as u128, refund_failed: arb_bool(u, 1, 2) }) } else { None };
@@ -2018,7 +2057,7 @@ pub fn decode_mcase(prop: &str, u: &mut arbitrary::Unstructured) -> MCase {
                             .take(5)
                             .collect()
                     }
-                    "C15" => (0..arb_below(u, 3)).map(|_| if arb_bool(u, 2, 5) { PMsg::SpendDeposit { to: d_actor(u), amt: arb_below(u, 40) as u32 } } else { PMsg::Record }).collect(),
+                    "C15" => (0..arb_below(u, 3)).map(|_| if arb_bool(u, 2, 5) { PMsg::SpendDeposit { to: d_actor(u), amt: arb_below(u, 40) as u32 } } else if arb_bool(u, 1, 6) { if arb_bool(u, 1, 3) { PMsg::RePropose } else { PMsg::ReClose(if arb_bool(u, 1, 3) { PRef::Own } else { PRef::Other(u.arbitrary().unwrap_or(0)) }) } } else { PMsg::Record }).collect(),
                     _ => vec![],
                 };
                 let latest = match arb_below(u, 8) {
